@@ -34,6 +34,7 @@ type g2lFn struct {
 	valPtr  map[types.Object]bool // pointer variables held as their pointee (go2lean_ptr.go)
 	fnObj   *types.Func           // the function being translated (go2lean_ptr.go)
 	inOut   []*types.Var          // pointer parameters returned as extra results (go2lean_inout.go)
+	eff     *g2lEffFn             // writes through pointers, effect loops (go2lean_effects.go)
 }
 
 func (f *g2lFn) fail(format string, a ...any) {
@@ -360,7 +361,7 @@ func (f *g2lFn) call(c *ast.CallExpr) string {
 		f.fail("call of `%s`, which has in-out parameters (only the outermost function may have them)", key)
 	}
 	f.dep(key)
-	return strings.Join(append([]string{f.g.unitLeanName(key)}, args...), " ")
+	return strings.Join(append([]string{f.g.callHead(key)}, args...), " ") // go2lean_effects.go: the context arguments first
 }
 
 func (f *g2lFn) builtin(c *ast.CallExpr) string {
